@@ -1,7 +1,27 @@
 (* C13 — Row and alias shorthands mean exactly their hand-written expansion.
-   Statements only; proofs are in TM.LoaderTables and TM.ExpandLemmas. *)
-From TM Require Import Base Json RustOps Fancy Mapper Parser Convert SpecTables ConvertSpec LoaderTables.
+   Statements only; proofs are in TM.LoaderTables, TM.SortLemmas, TM.ConvertLemmas,
+   TM.ExpandLemmas and TM.SpellingLemmas. *)
+From TM Require Import Base Json RustOps Fancy Mapper Parser Convert SpecTables ConvertSpec LoaderTables ExpandLemmas.
 From TMGen Require Import CharTable Rows Modifiers.
+
+(* The converter computes exactly the declarative expansion, for EVERY fancy
+   layout (any list of alias, single, row and repeat-only mappings, parsed or
+   not): both sides are outcomes (Ok layout / Err / Panic), so the layouts, the
+   rejections and the absence of panics coincide.  ConvertSpec.expand: one
+   mapping per non-space letter and per combination of alias definitions
+   (first alias slot fastest), Shift as the US-QWERTY keyboard of SpecTables.v
+   says, right Shift if the trigger contains right Shift, output-side aliases
+   replaced by the trigger-side choice, source order preserved, repeat-only
+   entries set the repeat mode of the mappings with the same trigger set or add
+   an identity mapping, duplicate keys in a trigger or output rejected. *)
+Theorem C13_convert_refines_spec : forall f : fancy_layout, Convert.convert f = ConvertSpec.expand f.
+Proof. exact convert_refines_spec. Qed.
+Print Assumptions C13_convert_refines_spec.
+
+(* the same for the part before the final duplicate-key rejection *)
+Theorem C13_convert_core_refines_spec : forall f : fancy_layout, Convert.convert_core f = ConvertSpec.expand_core f.
+Proof. exact convert_core_spec. Qed.
+Print Assumptions C13_convert_core_refines_spec.
 
 (* The converter's character table (regenerated from char_production_map.rs) is
    the US-QWERTY keyboard written down in SpecTables.v: for EVERY Unicode scalar
